@@ -7,10 +7,10 @@ package main
 // FIFO wake-up order, how a block ends (timeout, CLIENT UNBLOCK, kill, close) and re-use.
 
 import (
-	"net"
 	"encoding/json"
 	"fmt"
 	"math/rand"
+	"net"
 	"os"
 	"path/filepath"
 	"sort"
@@ -341,6 +341,15 @@ func scenFifo(g *rand.Rand) (string, []string, error) {
 
 // a list created under a waited key by RENAME / LMOVE / a multi-element push serves the waiters
 func scenOtherProducers(g *rand.Rand) (string, []string, error) {
+	return scenOtherProducersV(g.Intn(7), g)
+}
+
+// one scenario per producer variant, so that every tier runs each of them at least once
+func otherProducerVariant(v int) func(g *rand.Rand) (string, []string, error) {
+	return func(g *rand.Rand) (string, []string, error) { return scenOtherProducersV(v, g) }
+}
+
+func scenOtherProducersV(variant int, g *rand.Rand) (string, []string, error) {
 	w, err := newBWorld(2)
 	if err != nil {
 		return "", nil, err
@@ -351,7 +360,30 @@ func scenOtherProducers(g *rand.Rand) (string, []string, error) {
 	if !w.waitQueued("k", 2) {
 		return "clients never registered", w.log, nil
 	}
-	switch g.Intn(4) {
+	switch variant {
+	case 4:
+		// the push is queued in a transaction: EXEC runs it under the exclusive lock
+		v1, v2 := fmt.Sprintf("e%d", len(w.pushed)+1), fmt.Sprintf("e%d", len(w.pushed)+2)
+		w.pushed = append(w.pushed, v1, v2)
+		w.do("MULTI")
+		w.do("RPUSH", "k", v1)
+		w.do("LPUSH", "k", v2)
+		w.do("EXEC")
+	case 5:
+		w.push("src", 2)
+		w.do("MULTI")
+		w.do("LMOVE", "src", "k", "LEFT", "RIGHT")
+		w.do("RPOPLPUSH", "src", "k")
+		w.do("EXEC")
+	case 6:
+		// a transaction that switches into the waiters' database first
+		v1, v2 := fmt.Sprintf("e%d", len(w.pushed)+1), fmt.Sprintf("e%d", len(w.pushed)+2)
+		w.pushed = append(w.pushed, v1, v2)
+		w.do("SELECT", "3")
+		w.do("MULTI")
+		w.do("SELECT", "0")
+		w.do("RPUSH", "k", v1, v2)
+		w.do("EXEC")
 	case 0:
 		w.push("src", 2)
 		w.do("RENAME", "src", "k")
@@ -777,7 +809,9 @@ func runBlocking(prop string, scen []func(g *rand.Rand) (string, []string, error
 			if err != nil {
 				return err
 			}
-			var rp struct{ Case bscenario `json:"case"` }
+			var rp struct {
+				Case bscenario `json:"case"`
+			}
 			json.Unmarshal(b, &rp)
 			if rp.Case.Name == "lockstep" {
 				why, _, err := scenLockstep(rand.New(rand.NewSource(rp.Case.Seed)), cfg.modelPath)
@@ -881,8 +915,11 @@ func runBlocking(prop string, scen []func(g *rand.Rand) (string, []string, error
 
 func init() {
 	c11scen := runBlocking("C11",
-		[]func(g *rand.Rand) (string, []string, error){scenStolen, scenTimeoutTie, scenMultiKey, scenFifo, scenOtherProducers, scenRandom, scenRandom, scenRandom},
-		[]string{"stolen-wakeup", "timeout-tie", "multi-key", "fifo", "other-producers", "random", "random", "random"}, 40, 800)
+		[]func(g *rand.Rand) (string, []string, error){scenStolen, scenTimeoutTie, scenMultiKey, scenFifo,
+			otherProducerVariant(0), otherProducerVariant(1), otherProducerVariant(2), otherProducerVariant(3), otherProducerVariant(4), otherProducerVariant(5), otherProducerVariant(6),
+			scenOtherProducers, scenRandom, scenRandom, scenRandom},
+		[]string{"stolen-wakeup", "timeout-tie", "multi-key", "fifo", "other-producers", "other-producers", "other-producers", "other-producers", "other-producers", "other-producers", "other-producers",
+			"other-producers", "random", "random", "random"}, 44, 800)
 	streams["C11"] = func(cfg runCfg, res *Result) error {
 		if os.Getenv("VERIF_ONLY_LOCKSTEP") == "" {
 			if err := c11scen(cfg, res); err != nil || cfg.replay != "" {
